@@ -562,6 +562,9 @@ func c03Gen(tp *Tapes) *c03Spec {
 			if u.IsTag && (u.Target == "block") && (u.Route == "block-body" || u.Route == "macro-body") {
 				u.Route = "top"
 			}
+			if !u.IsTag && u.Target == "random" && u.Route == "arg-lazy-name" {
+				u.Route = "top" // a random file name would make the loader log differ from run to run
+			}
 			if u.IsTag && u.Target == "extends" && !u.Control {
 				u.Route = "top" // extends is only legal at the root level of a template
 			} else if !u.Control && g.Draw(2) == 0 {
